@@ -101,9 +101,22 @@ func genProtectedOps(rng *rand.Rand, g *GenesisSpec, nBlocks int) []Op {
 		}
 		ops = append(ops, Op{K: "block", Dt: 5})
 	}
+	deployAt := -1
+	if pcTraffic {
+		deployAt = rng.IntN(nBlocks) // an ERC-20 precompile is deployed by message in the middle of the history ...
+	}
 	for b := 0; b < nBlocks; b++ {
+		if b == deployAt {
+			// ... in a block of its own (no Ethereum tx after it), and used from the next block on
+			g.CpcWhitelist = []int{0}
+			ops = append(ops, Op{K: "msg", W: 0, Mut: "cpc_erc20", Denom: "utwo"}, Op{K: "block", Dt: 5})
+		}
 		n := rng.IntN(7)
 		for i := 0; i < n; i++ {
+			if deployAt >= 0 && b >= deployAt && rng.IntN(4) == 0 {
+				ops = append(ops, Op{K: "erc20", W: rng.IntN(g.Wallets), Mut: pick(rng, "transfer", "transfer", "name", "balanceOf"), Ref: rng.IntN(2), A: []string{fmt.Sprintf("w%d", rng.IntN(g.Wallets)), pick(rng, "1", "1000")}})
+				continue
+			}
 			if pcTraffic && rng.IntN(3) == 0 {
 				if rng.IntN(4) == 0 {
 					// staking transfer to oneself: the precompile re-delegates to the weakest of several tied validators
